@@ -2048,6 +2048,14 @@ impl<'s> Semantics<'s> {
                 .mode()
                 .operand_value(&detail.operands[1], self.instruction())?;
 
+            // lea computes the offset only: a segment override has no effect
+            if detail.operands[1].type_ == x86_op_type::X86_OP_MEM {
+                let segment = detail.operands[1].mem().segment;
+                if segment != x86_reg::X86_REG_INVALID {
+                    src = Expr::sub(src, self.get_register(segment)?.get()?)?;
+                }
+            }
+
             if src.bits() > dst.bits() {
                 src = Expr::trun(dst.bits(), src)?;
             } else if src.bits() < dst.bits() {
